@@ -284,7 +284,7 @@ class SymNum:
     def conjugate(s): return s
 
     def __reduce__(s):
-        return (_unpickle_sym, (s.z.sexpr(), [str(d) for d in _decls(s.z)]))
+        return (_unpickle_sym, (s.z.sexpr(), sorted({(d.decl().name(), d.decl().arity()) for d in _decls(s.z)})))
 
 
 def _decls(t):
@@ -294,14 +294,15 @@ def _decls(t):
         if e.get_id() in seen:
             continue
         seen.add(e.get_id())
-        if z3.is_const(e) and e.decl().kind() == z3.Z3_OP_UNINTERPRETED:
+        if z3.is_app(e) and e.decl().kind() == z3.Z3_OP_UNINTERPRETED:
             out.append(e)
         todo.extend(e.children())
     return out
 
 
 def _unpickle_sym(sexpr, names):
-    decls = {n: z3.Real(n) for n in names}
+    R = z3.RealSort()
+    decls = {n: (z3.Real(n) if not a else z3.Function(n, *([R] * (a + 1)))) for n, a in names}
     e = z3.parse_smt2_string(f'(assert (= 0.0 {sexpr}))', decls=decls)[0]
     return SymNum(e.arg(1))
 
@@ -336,8 +337,11 @@ def symabs(x):
 
 def _rat_to_float(v):
     if z3.is_rational_value(v):
-        return v.numerator_as_long() / v.denominator_as_long() if v.denominator_as_long() != 1 \
-            else builtins.float(v.numerator_as_long())
+        n, d = v.numerator_as_long(), v.denominator_as_long()
+        try:
+            return n / d if d != 1 else builtins.float(n)
+        except OverflowError:        # a model value beyond the float range: such a model cannot be replayed exactly
+            return 1.7e308 if (n > 0) == (d > 0) else -1.7e308
     if z3.is_algebraic_value(v):
         return builtins.float(v.approx(20).as_fraction())
     if z3.is_int_value(v):
@@ -930,6 +934,8 @@ class ConcreteEngine:
             if len(targs) == len(args) and all(_concrete_eq(x, y, 1e-12) for x, y in zip(targs, args)):
                 return val
         d = spec.get('default')
+        if len(self.notes) < 8:
+            self.notes.append(f'uf-miss {name}{tuple(args)} table-args={[t for t, _ in spec["table"]][:4]}')
         return 0.0 if d is None else d
 
     def assume(self, cond, text=None):
